@@ -1,0 +1,43 @@
+//! Verification hooks (cargo feature `verif`, off by default). Read-only views of executor
+//! state plus a thread-local override of the scheduler quantum. Nothing here is compiled into
+//! a normal build.
+use std::cell::Cell;
+
+thread_local! {
+    static QUANTUM: Cell<Option<usize>> = const { Cell::new(None) };
+}
+
+/// Override the instruction quantum used by `Executor::step` on this thread (None = as passed).
+pub fn set_quantum(q: Option<usize>) {
+    QUANTUM.with(|c| c.set(q));
+}
+
+pub fn quantum() -> Option<usize> {
+    QUANTUM.with(|c| c.get())
+}
+
+/// One heap slot as the executor accounts for it.
+#[derive(Debug, Clone)]
+pub struct SlotView {
+    pub refcount: u32,
+    pub freed: bool,
+    pub bytes: Vec<u8>,
+}
+
+#[derive(Debug, Clone)]
+pub struct HeapView {
+    pub slots: Vec<SlotView>,
+    pub free: Vec<usize>,
+    pub pending_free: Vec<usize>,
+    /// Heap indices pinned by the constant-binary cache.
+    pub constant_cache: Vec<usize>,
+}
+
+#[derive(Debug, Clone)]
+pub struct SchedView {
+    pub queue: Vec<usize>,
+    pub spawning: Vec<usize>,
+    pub selecting: Vec<usize>,
+    pub effecting: Vec<usize>,
+    pub processes: Vec<usize>,
+}
